@@ -214,6 +214,12 @@ def check_corpus(corpus, fails, counts):
                     fail("C01-len-limit", "len(results, limit=1) = %d expected %d" % (len(r1), len(refids)))
                 if len(s.search(q, limit=None, terms=True)) != len(refids):
                     fail("C01-terms", "terms=True changes the match count")
+                # whatever the limit, every hit is a matching live document (C01; the ranking itself is C05)
+                for k in (1, 2, 3):
+                    hits = [h.docnum for h in s.search(q, limit=k)]
+                    if any(d not in refids for d in hits) or len(hits) != min(k, len(refids)) or len(set(hits)) != len(hits):
+                        fail("C01-limit-hits", "search(limit=%d) -> %r but the matching documents are %r" % (k, hits, refids))
+                        break
                 # ---------------- C05
                 c05_ok = scored and (single_block or kind not in BINARY_QUALITY_KNOWN) and kind not in BOOSTED
                 if c05_ok:
